@@ -365,12 +365,7 @@ func (w *plugWorker) line(op string) string {
 	return "badop"
 }
 
-func mt4(d *dhcpv4.DHCPv4) int {
-	if v := d.Options.Get(dhcpv4.OptionDHCPMessageType); len(v) >= 1 {
-		return int(v[0])
-	}
-	return 0
-}
+func mt4(d *dhcpv4.DHCPv4) int { return int(d.MessageType()) }
 
 func runPlugWorker() {
 	w := &plugWorker{}
